@@ -169,6 +169,9 @@ type c18Opts struct {
 	g3Active  bool
 	trSignOK  bool // call-site precondition of OnSigningCompleted: the hand-over signing is SUCCESS
 	withMapped bool // an ordinary bandtss signing (tss signing c18SidMapped [+ c18SidInc]) exists
+	mappedFee  sdk.Coins // FeePerSigner of that ordinary signing
+	mappedInc  bool      // it also has an incoming-group twin signing c18SidInc
+	thrConcrete bool     // thresholds = group size (concrete) instead of symbolic in 1..size
 	// sizes(kind): enumerate the member counts of groups 1 and 2 for this transition kind (else 1 member each)
 	sizes func(kind int) bool
 }
@@ -180,7 +183,10 @@ func c18Status(label string) tsstypes.GroupStatus {
 	return tsstypes.GroupStatus(s)
 }
 
-func c18Threshold(label string, n int) uint64 {
+func c18Threshold(label string, n int, concrete bool) uint64 {
+	if concrete {
+		return uint64(n)
+	}
 	t := vs.U64(label)
 	vs.Assume(t >= 1)
 	vs.Assume(t <= uint64(n))
@@ -260,9 +266,9 @@ func c18Build(e *c18Env, o c18Opts) *c18State {
 	if o.g3Active {
 		vs.Assume(st3 == tsstypes.GROUP_STATUS_ACTIVE)
 	}
-	e.tss.PutGroup(tsstypes.Group{ID: c18G1, Threshold: c18Threshold("g1_threshold", n1), PubKey: c18PK(c18G1),
+	e.tss.PutGroup(tsstypes.Group{ID: c18G1, Threshold: c18Threshold("g1_threshold", n1, o.thrConcrete), PubKey: c18PK(c18G1),
 		Status: st1, CreatedHeight: 10, ModuleOwner: types.ModuleName}, c18Addrs(c18G1, n1))
-	e.tss.PutGroup(tsstypes.Group{ID: c18G2, Threshold: c18Threshold("g2_threshold", n2), PubKey: c18PK(c18G2),
+	e.tss.PutGroup(tsstypes.Group{ID: c18G2, Threshold: c18Threshold("g2_threshold", n2, o.thrConcrete), PubKey: c18PK(c18G2),
 		Status: st2, CreatedHeight: 20, ModuleOwner: types.ModuleName}, c18Addrs(c18G2, n2))
 	e.tss.PutGroup(tsstypes.Group{ID: c18G3, Threshold: 1, PubKey: c18PK(c18G3),
 		Status: st3, CreatedHeight: 30, ModuleOwner: types.ModuleName}, c18Addrs(c18G3, 1))
@@ -323,6 +329,23 @@ func c18Build(e *c18Env, o c18Opts) *c18State {
 	}
 	for _, x := range m.mem {
 		k.SetMember(ctx, types.NewMember(x.addr, x.group, x.active, x.since.time()))
+	}
+
+	// ---- an ordinary signing request in flight (B5: mapped ids belong to a stored bandtss signing)
+	if o.withMapped {
+		incSid := tss.SigningID(0)
+		if o.mappedInc {
+			incSid = c18SidInc
+		}
+		bs := types.NewSigning(c18BandtssSigning, o.mappedFee, venv.Addr(7), c18SidMapped, incSid)
+		k.SetSigning(ctx, bs)
+		k.SetSigningCount(ctx, uint64(c18BandtssSigning))
+		k.SetSigningIDMapping(ctx, c18SidMapped, c18BandtssSigning)
+		m.mapped[c18SidMapped] = c18BandtssSigning
+		if o.mappedInc {
+			k.SetSigningIDMapping(ctx, c18SidInc, c18BandtssSigning)
+			m.mapped[c18SidInc] = c18BandtssSigning
+		}
 	}
 	return m
 }
